@@ -221,7 +221,7 @@ pub fn placement_short<N: Nd, const B: usize>(n: &mut N) {
     vcover!(len == B, "full length");
 }
 
-crate::proofs! {
+crate::bproofs! {
     #[kani::unwind(9)]
     c08_side => side;
     #[kani::unwind(9)]
